@@ -23,7 +23,8 @@ RULE = ("file_formats[bin|raw|bk_wav|bk_turbo_wav] of the real code on: an image
         "(byte for byte, or by a (length, sum, sum of prefix sums, sum of those) for large outputs) and decoded by the Spec readers "
         "(parse_bin / parse_wav + demod + cksum_spec) inside coqc.  Paths: os.path/resolve_relative_path on generated path strings, "
         "every make_xxx directive x path form x tape-name form x source-name form through the assembler (Compiler.emitted_files), "
-        "sources with 2-4 make_xxx directives (several of the same container with different paths and explicit/inferred tape names, "
+        "make_xxx inside `.include`d files (depth 1-2, sub-directories, relative/absolute/non-normal operands) x working directory "
+        "{source dir, parent, sibling, scratch root}, sources with 2-4 make_xxx directives (several of the same container with different paths and explicit/inferred tape names, "
         "mixed containers, the same path twice, together with -o), "
         "and real `python -m pdpy11` runs in scratch directories for every output selector and the full cross product "
         "{-o bin/raw/other/stdout, none; last components '-', '-.ext', '-x', 'x-', '.bin', dotted, upper-case behind no / ./ / sub/ / absolute directory part} x {--implicit-bin} x {no / one / several make_xxx} x {--lst} (files found = files expected and nothing else, "
@@ -160,8 +161,8 @@ def c13_resolve(rel, base):
                                    "dir": os.path.dirname(base), "norm": os.path.normpath(rel)})
 
 
-def c13_emitted(files):
-    """assemble and return Compiler.emitted_files even when the assembly failed"""
+def c13_emitted(files, fs=None):
+    """assemble and return Compiler.emitted_files even when the assembly failed; fs: path -> text of .include'd files"""
     m = impl.load()
     reports, parser, compiler = m["reports"], m["parser"], m["compiler"]
     impl.reset_global_state()
@@ -188,7 +189,18 @@ def c13_emitted(files):
         if comp is not None:
             res["emitted"] = [[e[2], e[3]] + [x.hex() if isinstance(x, bytes) else x for x in e[4:]] for e in comp.emitted_files]
         return res
-    return _with_watchdog(go)
+    if fs is None:
+        return _with_watchdog(go)
+    mc = m["metacommands"]
+    old_open = mc.__dict__.get("open")
+    mc.open = impl.FakeFS(fs).open
+    try:
+        return _with_watchdog(go)
+    finally:
+        if old_open is None:
+            mc.__dict__.pop("open", None)
+        else:
+            mc.open = old_open
 
 
 # impl.pmap looks functions up in impl's globals
@@ -445,9 +457,11 @@ def gen_cli_cases(rng, tier):
     infile spelling (abs / rel), outfile, implicit_bin, dirs to create"""
     sc = []
 
-    def add(sources, outfile=None, implicit=False, cwd="proj", spell="rel", base=0o1000, note="", lst=False):
+    def add(sources, outfile=None, implicit=False, cwd="proj", spell="rel", base=0o1000, note="", lst=False, inc=()):
+        # inc: [child index, parent index, operand as written]: sources[child] is not an infile but `.include`d
+        # (last line) by sources[parent]; parents come before their children, so list order = assembly order
         sc.append({"type": "cli", "cwd": cwd, "sources": sources, "outfile": outfile, "implicit": implicit, "spell": spell,
-                   "base": base, "note": note, "lst": lst})
+                   "base": base, "note": note, "lst": lst, "inc": [list(x) for x in inc]})
 
     S = "proj/src/prog.mac"
     # full cross product of the output selectors: -o kind x --implicit-bin x directives x --lst
@@ -477,6 +491,38 @@ def gen_cli_cases(rng, tier):
             add([(S, [])], outfile=prefix + comp, lst=(k % 5 == 0), implicit=(k % 7 == 0), note="dash")
     add([(S, [("make_bin", None, None)])], outfile="./-")
     add([(S, [("make_raw", "r", None)])], outfile="sub/-.bin", lst=True)
+    # make_xxx inside files reached by `.include` (depth 1-2, in sub-directories), assembled from several
+    # working directories: paths are relative to the file that CONTAINS the directive, default names are its name
+    M = "proj/src/main.mac"
+    inc_sets = [
+        ([(M, []), ("proj/src/lib/part.mac", [("make_raw", None, None), ("make_bin", "up.bin", None)])], [(1, 0, "lib/part.mac")], None),
+        ([(M, [("make_bin", None, None)]), ("proj/src/lib/part.mac", [("make_wav", None, None), ("make_bin", "../x.bin", None)]),
+          ("proj/src/lib/sub2/leaf.mac", [("make_turbo_wav", "out.wav", None), ("make_raw", None, None), ("make_raw", "../../y.raw", None)])],
+         [(1, 0, "lib/part.mac"), (2, 1, "sub2/leaf.mac")], None),
+        ([(M, []), ("proj/src/lib/PART.MAC", [("make_wav", "out/p.wav", "T"), ("make_bin", None, None)])], [(1, 0, "./lib/../lib/PART.MAC")], "k.bin"),
+        ([(M, []), ("proj/src/lib/part.mac", [("make_bin", None, None), ("make_turbo_wav", None, None)])], [(1, 0, "ABS:/proj/src/lib/part.mac")], None),
+        ([(M, []), ("proj/src/deep/leaf", [("make_wav", None, None), ("make_bin", "b.bin", None)])], [(1, 0, "lib/../deep/leaf")], None),
+    ]
+    for srcs, inc, o in inc_sets:
+        for j, cwd in enumerate(["proj/src", "proj", "proj/lib", ""]):
+            add([(a, list(b)) for a, b in srcs], inc=inc, cwd=cwd, spell="rel" if j < 3 else rng.choice(["rel", "abs"]), outfile=o,
+                lst=(j == 1 and o is None), note="include")
+    for _ in range(0 if tier == "quick" else 60):
+        depth = rng.choice([1, 1, 2])
+        names = ["proj/src/lib/part.mac", "proj/src/lib/sub2/leaf.mac"][:depth]
+        ops = ["lib/part.mac", rng.choice(["sub2/leaf.mac", "./sub2/leaf.mac"])][:depth]
+        srcs = [(M, [(rng.choice(list(DIRS)), None, None)] if rng.random() < 0.3 else [])]
+        for nm in names:
+            ds = []
+            for _k in range(rng.choice([1, 2, 2, 3])):
+                d = rng.choice(list(DIRS))
+                pth = rng.choice([None, "o%d" % _k, "../u%d.bin" % _k, "out/w%d.wav" % _k, "ABS:/o/a%d" % _k])
+                if pth is None and any(x[0] == d and x[1] is None for x in ds):
+                    pth = "dup%d" % _k
+                ds.append((d, pth, rng.choice([None, "NM"]) if (pth and "wav" in d) else None))
+            srcs.append((nm, ds))
+        add(srcs, inc=[(i + 1, i, ops[i]) for i in range(depth)], cwd=rng.choice(["proj/src", "proj", "proj/lib", ""]),
+            spell=rng.choice(["rel", "abs"]), outfile=rng.choice([None, None, "k.bin", "-"]), implicit=rng.random() < 0.3, lst=rng.random() < 0.3, note="include")
     # --implicit-bin, and nothing at all
     for sn in ["proj/src/prog.mac", "proj/src/PROG.MAC", "proj/src/prog", "proj/src/prog.Mac", "proj/src/p.asm"]:
         add([(sn, [])], implicit=True)
@@ -558,6 +604,10 @@ def _abs(root, p):
     return p.replace("ABS:", root) if p is not None else None
 
 
+def cli_included(s_):
+    return {c for c, _, _ in s_.get("inc", [])}
+
+
 def cli_source_text(s_, k, dirs, root):
     lines = []
     if k == 0:
@@ -568,6 +618,9 @@ def cli_source_text(s_, k, dirs, root):
         lines.append(".byte %o" % (k & 255))
     for d, p, t in dirs:
         lines.append(directive_line(d, _abs(root, p), t))
+    for c, par, operand in s_.get("inc", []):
+        if par == k:
+            lines.append('.include "%s"' % _abs(root, operand))
     return "\n".join(lines) + "\n"
 
 
@@ -578,7 +631,7 @@ def run_cli_case(s_, rootbase):
     try:
         shutil.rmtree(root, ignore_errors=True)
         for d in ("proj/src", "proj/lib", "proj/sub/deep", "proj/src/sub/deep", "proj/side", "proj/lib/out", "proj/q", "proj/src/a", "proj/a.b", "o", "sub", "q", "a.b",
-                  "proj/src/q", "side", "a", "proj/a", "proj/lib/sub/deep", "proj/lib/a", "proj/lib/q", "proj/lib/side", "proj/src/a.b", "proj/src/side"):
+                  "proj/src/q", "side", "a", "proj/a", "proj/src/lib/sub2/out", "proj/src/lib/out", "proj/src/deep/out", "proj/out", "proj/lib/lib", "out", "lib", "proj/lib/sub/deep", "proj/lib/a", "proj/lib/q", "proj/lib/side", "proj/src/a.b", "proj/src/side"):
             os.makedirs(os.path.join(root, d), exist_ok=True)
         root = os.path.realpath(root)
         cwd = os.path.join(root, s_["cwd"]) if s_["cwd"] else root
@@ -595,8 +648,9 @@ def run_cli_case(s_, rootbase):
                 p = os.path.join(dp, fn)
                 with open(p, "rb") as f:
                     before[p] = f.read()
-        infiles = [ap if s_["spell"] == "abs" else os.path.relpath(ap, cwd) for ap, _ in files]
-        argv = [C.PY, "-m", "pdpy11"] + infiles
+        included = cli_included(s_)
+        infiles = [None if k in included else (ap if s_["spell"] == "abs" else os.path.relpath(ap, cwd)) for k, (ap, _) in enumerate(files)]
+        argv = [C.PY, "-m", "pdpy11"] + [x for x in infiles if x is not None]
         outfile = _abs(root, s_["outfile"])
         if outfile is not None:
             # argparse takes a separate "-.bin" for an option; the attached spelling reaches the code
@@ -698,10 +752,15 @@ def cli_image(s_, o):
 def cli_term(s_, o, model):
     exp, stdout_kind = o["expected"], o["expected_stdout"]
     srcs = []
-    for infile, (rel, dirs) in zip(o["infiles"], s_["sources"]):
+    parent = {c: (par, operand) for c, par, operand in s_.get("inc", [])}
+    for k, (infile, (rel, dirs)) in enumerate(zip(o["infiles"], s_["sources"])):
         ds = "; ".join("(%s, %s, %s)" % (DIRS[d], opt(cstr(_abs(o["root"], p))) if p is not None else "None", opt(cstr(t)) if t is not None else "None")
                        for d, p, t in dirs)
-        srcs.append("(%s, [%s])" % (cstr(infile), ds))
+        chain, j = [], k          # the `.include` operands leading from an infile to this file
+        while j in parent:
+            chain.insert(0, _abs(o["root"], parent[j][1]))
+            j = parent[j][0]
+        srcs.append("(%s, [%s], [%s])" % (cstr(o["infiles"][j]), "; ".join(cstr(x) for x in chain), ds))
     exp_t = "None" if exp is None else "(Some [%s])" % "; ".join(
         "(%s, %s, %s)" % (cstr(p), KINDS[k], opt(C.zlist(nm)) if nm is not None else "None") for p, k, nm in exp)
     files_t = "; ".join("(%s, %s)" % (cstr(p), rep_term(d)) for p, d in sorted(o["found"].items()))
@@ -739,7 +798,9 @@ def run_cli_cases(cases, seed):
         s_["obs"] = o
         if "harness_error" in o or o.get("exit") is None:
             continue
-        img = c13_emitted(o["files"])
+        included = cli_included(s_)
+        img = c13_emitted([f for k, f in enumerate(o["files"]) if k not in included],
+                          fs={f[0]: f[1] for k, f in enumerate(o["files"]) if k in included} if included else None)
         o["image_outcome"] = img["outcome"]
         if img["outcome"] == "ok":
             o["image"] = (img["base"], bytes.fromhex(img["code"]))
@@ -752,7 +813,7 @@ def cli_usable(s_):
     o = s_["obs"]
     if "harness_error" in o or o.get("exit") is None:
         return False
-    strings = [o["cwd"]] + o["infiles"] + list(o["found"]) + ([o["outfile"]] if o["outfile"] else []) + ([o["obs_lst"]] if o.get("obs_lst") else [])
+    strings = [o["cwd"]] + [x for x in o["infiles"] if x is not None] + list(o["found"]) + ([o["outfile"]] if o["outfile"] else []) + ([o["obs_lst"]] if o.get("obs_lst") else [])
     return all(all(32 <= ord(ch) < 127 for ch in x) for x in strings)
 
 
@@ -959,6 +1020,7 @@ def replay(data):
         s_ = dict(inp["scenario"])
         s_["bytes"] = bytes.fromhex(s_["bytes"])
         s_["sources"] = [(a, [tuple(x) for x in b]) for a, b in s_["sources"]]
+        s_.setdefault("inc", [])
         run_cli_cases([s_], data.get("seed", 0))
         print("replay: argv", s_["obs"].get("argv"), "exit", s_["obs"].get("exit"), "found", sorted(s_["obs"].get("found", {})))
         if not cli_usable(s_):
